@@ -380,6 +380,8 @@ class SamplerCore:
 
     def _initialize_fresh(self):
         """Initialize fresh run (replaces part of Sampler.run)."""
+        if self.config.random_state is not None:
+            np.random.seed(self.config.random_state)
         self.state.set_current("iter", 0)
         self.state.set_current("calls", 0)
         self.state.set_current("beta", 0.0)
